@@ -218,7 +218,8 @@ def gen_case(seeds, params, index):
     kinds = []
     acc = p['accepts']
     if 'iter' in acc:
-        kinds += [['endless'], ['endless'], ['finite', N + 1], ['finite', N],
+        kinds += [['endless'], ['endless'], ['endless_empties'], ['endless_empties'],
+                  ['finite', N + 1], ['finite', N],
                   ['finite', max(0, N - 1)], ['lib', 'sequence'],
                   ['lib', 'cycle'], ['lib', 'repeat'], ['lib', 'generate'],
                   ['lib', 'range', N + 1]]
@@ -382,6 +383,12 @@ def make_stream(stream, N, registry):
         s = seams.SimSource('s', lambda i: i, None, budget=budget)
         registry.append(s)
         return s
+    if k == 'endless_empties':
+        # an endless stream whose items are empty iterators: flattening it
+        # produces no output at all
+        s = seams.SimSource('s', lambda i: iter(()), None, budget=budget)
+        registry.append(s)
+        return s
     if k == 'finite':
         s = seams.SimSource('s', lambda i: i, stream[1], budget=budget)
         registry.append(s)
@@ -535,7 +542,7 @@ def exec_limit(case, stats):
                                     'from a lazy sequence handed to a library '
                                     'function', 'detail': detail})
             break
-    endless = case['stream'][0] in ('endless', 'lib') or any(
+    endless = case['stream'][0] in ('endless', 'endless_empties', 'lib') or any(
         x.length is None or x.length > N for x in registry)
     if kind in ('budget', 'memoryerror') and not viols and not endless:
         # bounded input, step budget exhausted: work that is legitimately
